@@ -488,6 +488,9 @@ func gatherVsRestart(kind string) zzmc.Scenario {
 				}
 			})
 			gatherAfterRestart := false
+			if ownershipJudged() {
+				zzmc.OwnStart("*ice.Agent", "taskloop.go:")
+			}
 			s.Go("G", func() {
 				gatherAfterRestart = restartReturned // then the cycle belongs to the new generation and is legitimate
 				if err := gw.a.GatherCandidates(); err != nil {
@@ -522,6 +525,9 @@ func gatherVsRestart(kind string) zzmc.Scenario {
 				synctest.Wait()
 				time.Sleep(10 * time.Second)
 				synctest.Wait()
+				if reports, _ := zzmc.OwnStop(); len(reports) > 0 {
+					fail += strings.Join(reports, "; ") + " "
+				}
 				_, _, _ = oldUfrag, publishedAfter, gatherAfterRestart
 				fail = strings.ReplaceAll(fail, "NIL-CANDIDATE-OF-CANCELLED-CYCLE-AFTER-RESTART ", "")
 				st, _ := gw.a.GetGatheringState()
@@ -590,6 +596,9 @@ func gatherVsGather(withRestart bool) zzmc.Scenario {
 				gw.candLog = append(gw.candLog, c.Address())
 			})
 			res := map[string]string{}
+			if ownershipJudged() {
+				zzmc.OwnStart("*ice.Agent", "taskloop.go:")
+			}
 			for _, n := range []string{"G1", "G2"} {
 				s.Go(n, func() { res[n] = fmt.Sprint(gw.a.GatherCandidates()) })
 			}
@@ -601,6 +610,9 @@ func gatherVsGather(withRestart bool) zzmc.Scenario {
 				synctest.Wait()
 				time.Sleep(10 * time.Second)
 				synctest.Wait()
+				if reports, _ := zzmc.OwnStop(); len(reports) > 0 {
+					fail += strings.Join(reports, "; ") + " "
+				}
 				accepted := 0
 				for n, r := range res {
 					switch {
